@@ -101,6 +101,22 @@ Theorem C08_reselect_spec : forall matches ord t ops s, perm_oracle ord ->
 Proof. exact reselect_spec. Qed.
 Print Assumptions C08_reselect_spec.
 
+(* Value ranges lo:hi:'col' over ANY column dtype: values are abstract and
+   numpy's <= is an oracle [le] (exact on numbers, false on NaN); the rows
+   selected are exactly those with lo <= v <= hi under that comparison, in
+   table order, for every column (sorted or not) and either bound optional. *)
+Theorem C08_range_abstract : forall (V : Type) (le : V -> V -> bool) lo hi col,
+  range_view V le lo hi col = range_spec V le lo hi col.
+Proof. exact range_refines_abstract. Qed.
+Print Assumptions C08_range_abstract.
+
+(* the integer-column selector of the model is the instance V = Z, le = Z.leb *)
+Theorem C08_range_instance : forall matches ord t lo hi cn vals,
+  aget N.eqb cn (s_cols t) = Some vals -> length vals = slen t ->
+  indices matches ord t (QOne (SRange lo hi cn)) = Ok (range_view Z Z.leb lo hi vals).
+Proof. exact srange_is_instance. Qed.
+Print Assumptions C08_range_instance.
+
 (* Tables with their own regex_flags (constructor argument): the oracle takes
    the table's case folding, matches2 true = IGNORECASE (default), matches2
    false = case-sensitive.  C08_refines for both values ... *)
